@@ -65,6 +65,8 @@ pub enum FTy {
     NilU8With,
     /// `Box<Option<u8>>`: `Box` forwards both `is_nil` and `nil`, the field is optional like `Option<u8>`
     BoxOptU8,
+    /// `minicbor::data::Tagged<7, Option<u8>>`: forwards neither, always written as 7(null) / 7(n) and required
+    TaggedOptU8,
     /// `std::cell::Cell<Option<u8>>`: `Cell` forwards neither, the field is always written (NULL for `None`) and required
     CellOptU8,
     /// derive_rt::Flex with `encode_with` + `cbor_len` only (array form on the wire; the type's own Decode reads it)
@@ -240,7 +242,7 @@ pub fn field_values(ty: &FTy, all: &[Schema], salt: u8) -> Vec<GenVal> {
     let d = 1 + (salt % 20);
     match ty {
         FTy::U8 | FTy::GenericU8 | FTy::FlexEncOnly | FTy::FlexDecOnly => vec![GenVal::U8(d), GenVal::U8(0), GenVal::U8(23), GenVal::U8(24), GenVal::U8(255)],
-        FTy::OptU8 | FTy::BoxOptU8 | FTy::CellOptU8 | FTy::GenericOptU8 | FTy::NilU8Fns | FTy::NilU8FnsB | FTy::NilU8FnsC | FTy::NilU8FnsD | FTy::NilU8With => vec![GenVal::some(GenVal::U8(d)), GenVal::none(), GenVal::some(GenVal::U8(24)), GenVal::some(GenVal::U8(255))],
+        FTy::OptU8 | FTy::BoxOptU8 | FTy::CellOptU8 | FTy::TaggedOptU8 | FTy::GenericOptU8 | FTy::NilU8Fns | FTy::NilU8FnsB | FTy::NilU8FnsC | FTy::NilU8FnsD | FTy::NilU8With => vec![GenVal::some(GenVal::U8(d)), GenVal::none(), GenVal::some(GenVal::U8(24)), GenVal::some(GenVal::U8(255))],
         FTy::Str | FTy::StrRef | FTy::CowStr => vec![GenVal::Str(format!("s{}", d)), GenVal::Str(String::new()), GenVal::Str("x".repeat(24))],
         FTy::OptStr => vec![GenVal::some(GenVal::Str(format!("s{}", d))), GenVal::none(), GenVal::some(GenVal::Str(String::new()))],
         FTy::BytesVec | FTy::CowBytes | FTy::ByteSliceRef => vec![GenVal::Bytes(vec![d]), GenVal::Bytes(vec![]), GenVal::Bytes(vec![0x99; 24]), GenVal::Bytes(vec![0x18, 0xff])],
@@ -362,6 +364,7 @@ fn tagged(tag: Option<u64>, i: Item) -> Item {
 
 fn encode_field_value(ty: &FTy, all: &[Schema], v: &GenVal) -> Item {
     match (ty, v) {
+        (FTy::TaggedOptU8, GenVal::Opt(x)) => Item::tag(7, x.as_ref().map(|y| Item::uint(y.u8() as u64)).unwrap_or(NULL)),
         (_, GenVal::Opt(None)) => NULL,
         (FTy::U8 | FTy::GenericU8 | FTy::FlexDecOnly, GenVal::U8(x)) => Item::uint(*x as u64),
         (FTy::FlexEncOnly, GenVal::U8(x)) => Item::array(vec![Item::uint(*x as u64)]),
@@ -528,6 +531,14 @@ fn decode_field_value(ty: &FTy, all: &[Schema], i: &Item) -> R {
         },
         FTy::IndefArr => u8_array_of(i).map(GenVal::Bytes),
         FTy::Nested(j) => decode_inner(&all[*j], all, i),
+        FTy::TaggedOptU8 => {
+            let inner = untag(Some(7), i)?;
+            if *inner == NULL {
+                Ok(GenVal::none())
+            } else {
+                opt(u8_of(inner).map(GenVal::U8))
+            }
+        }
         _ if *i == NULL => Ok(GenVal::none()),
         FTy::OptU8 | FTy::BoxOptU8 | FTy::CellOptU8 | FTy::GenericOptU8 | FTy::NilU8Fns | FTy::NilU8FnsB | FTy::NilU8FnsC | FTy::NilU8FnsD | FTy::NilU8With => opt(u8_of(i).map(GenVal::U8)),
         FTy::OptStr => opt(text_of(i).map(GenVal::Str)),
@@ -1012,7 +1023,7 @@ fn enumerate_schemas_base(thorough: bool) -> Vec<Schema> {
 
     // ---- G-type: every field type in every container position
     let tys: Vec<FTy> = vec![
-        FTy::U8, FTy::OptU8, FTy::BoxOptU8, FTy::CellOptU8, FTy::Str, FTy::OptStr, FTy::StrRef, FTy::CowStr, FTy::BytesVec, FTy::OptBytesRef, FTy::ByteArr4, FTy::CowBytes, FTy::OptByteVec, FTy::ByteSliceRef, FTy::ByteArrayT, FTy::GenericU8, FTy::GenericOptU8, FTy::NilU8Fns, FTy::NilU8FnsB, FTy::NilU8FnsC, FTy::NilU8FnsD, FTy::NilU8With, FTy::IndefArr, FTy::OptIndefArr, FTy::FlexEncOnly, FTy::FlexDecOnly,
+        FTy::U8, FTy::OptU8, FTy::BoxOptU8, FTy::CellOptU8, FTy::TaggedOptU8, FTy::Str, FTy::OptStr, FTy::StrRef, FTy::CowStr, FTy::BytesVec, FTy::OptBytesRef, FTy::ByteArr4, FTy::CowBytes, FTy::OptByteVec, FTy::ByteSliceRef, FTy::ByteArrayT, FTy::GenericU8, FTy::GenericOptU8, FTy::NilU8Fns, FTy::NilU8FnsB, FTy::NilU8FnsC, FTy::NilU8FnsD, FTy::NilU8With, FTy::IndefArr, FTy::OptIndefArr, FTy::FlexEncOnly, FTy::FlexDecOnly,
         FTy::Nested(h_arr), FTy::OptNested(h_arr), FTy::Nested(h_map), FTy::OptNested(h_map), FTy::Nested(h_enum), FTy::OptNested(h_enum), FTy::Nested(h_ionly), FTy::OptNested(h_ionly), FTy::Nested(h_life), FTy::OptNested(h_tagged),
         FTy::OptNested(h_allopt_map),
     ];
@@ -1102,6 +1113,7 @@ fn ty_src(ty: &FTy, all: &[Schema]) -> String {
         FTy::OptU8 => "Option<u8>".into(),
         FTy::BoxOptU8 => "Box<Option<u8>>".into(),
         FTy::CellOptU8 => "std::cell::Cell<Option<u8>>".into(),
+        FTy::TaggedOptU8 => "minicbor::data::Tagged<7, Option<u8>>".into(),
         FTy::Str => "String".into(),
         FTy::OptStr => "Option<String>".into(),
         FTy::StrRef => "&'a str".into(),
@@ -1232,6 +1244,7 @@ fn make_expr(f: &FieldS, x: &str) -> String {
         FTy::OptU8 | FTy::GenericOptU8 => format!("{}.opt().map(|y| y.u8())", x),
         FTy::BoxOptU8 => format!("Box::new({}.opt().map(|y| y.u8()))", x),
         FTy::CellOptU8 => format!("std::cell::Cell::new({}.opt().map(|y| y.u8()))", x),
+        FTy::TaggedOptU8 => format!("minicbor::data::Tagged::new({}.opt().map(|y| y.u8()))", x),
         FTy::Str => format!("{}.str().to_string()", x),
         FTy::OptStr => format!("{}.opt().map(|y| y.str().to_string())", x),
         FTy::StrRef => format!("{}.str()", x),
@@ -1262,6 +1275,7 @@ fn view_expr(f: &FieldS, t: &str) -> String {
         FTy::OptU8 | FTy::GenericOptU8 => format!("GenVal::Opt({}.map(|y| Box::new(GenVal::U8(y))))", t),
         FTy::BoxOptU8 => format!("GenVal::Opt((**{}).map(|y| Box::new(GenVal::U8(y))))", t),
         FTy::CellOptU8 => format!("GenVal::Opt({}.get().map(|y| Box::new(GenVal::U8(y))))", t),
+        FTy::TaggedOptU8 => format!("GenVal::Opt((*{}.value()).map(|y| Box::new(GenVal::U8(y))))", t),
         FTy::Str | FTy::StrRef | FTy::CowStr => format!("GenVal::Str({}.to_string())", t),
         FTy::OptStr => format!("GenVal::Opt({}.as_ref().map(|y| Box::new(GenVal::Str(y.to_string()))))", t),
         FTy::BytesVec => format!("GenVal::Bytes({}.to_vec())", t),
